@@ -163,6 +163,24 @@ Definition zero_clause (env : senv) (T : ty) (targets : list path) (v : val) : b
          | _ => true
          end) (probes 3 env (dedupN (List.concat targets)) T).
 
+(* conclusion of stream_partition on the observed Invoke value and the observed chunks (one chunk
+   per predecessor): every target slot that is not zero in the Invoke value is carried by exactly
+   one chunk, which reads the same value there; a slot that is zero is zero in every chunk *)
+Definition partition_clause (env : senv) (T : ty) (targets : list path) (v : val) (vs : list val) : bool :=
+  forallb (fun to =>
+    match extract_ty env T to, take_path env v to with
+    | SOk st _, Ok y =>
+        let nz := filter (fun c => match take_path env c to with Ok z => negb (veq env z (zero st)) | _ => false end) vs in
+        if veq env y (zero st) then match nz with [] => true | _ => false end
+        else match nz with
+             | [c] => match take_path env c to with Ok z => veq env z y | _ => false end
+             | _ => false
+             end
+    | _, _ => false
+    end) targets.
+
+Definition single_chunks (c : ccase) : bool := forallb (fun cs => match cs with [_] => true | _ => false end) (c_chunks c).
+
 Definition clauses (c : ccase) : bool :=
   typed_sources c &&
   if has_plain (c_decls c) then true else
@@ -173,7 +191,11 @@ Definition clauses (c : ccase) : bool :=
   | _ => true
   end &&
   match o_stream c with
-  | SVals vs => forallb (zero_clause (c_env c) (c_T c) targets) vs
+  | SVals vs => forallb (zero_clause (c_env c) (c_T c) targets) vs &&
+                match o_invoke c with
+                | RVal v => if single_chunks c then partition_clause (c_env c) (c_T c) targets v vs else true
+                | _ => true
+                end
   | _ => true
   end.
 
